@@ -10,7 +10,9 @@ import (
 	"net/http"
 	"os"
 	"strings"
+	"time"
 	"unicode/utf8"
+	"verifharness/stack"
 
 	"go.amzn.com/lambda/appctx"
 	"go.amzn.com/lambda/fatalerror"
@@ -44,7 +46,11 @@ type Mismatch struct {
 	What  string      `json:"what"`
 }
 
+// every n-th cause case goes through the full stack as well
+var fullStackEvery = 24
+
 type Report struct {
+	FullStack  int            `json:"fullstack_cases"`
 	Cases      int            `json:"cases"`
 	Concrete   int            `json:"concrete_inputs"`
 	ByPart     map[string]int `json:"by_part"`
@@ -323,6 +329,104 @@ func checkRelease(rnd *rand.Rand, c *Case) string {
 	return ""
 }
 
+const causeHeader = "Lambda-Runtime-Function-XRay-Error-Cause"
+
+func lastTraceCause(s *stack.Stack) (string, int, int) {
+	class, size, n := "", 0, 0
+	for _, e := range s.Rec.Events() {
+		if e["ev"] == "TraceCause" {
+			class, _ = e["class"].(string)
+			size, _ = e["size"].(int)
+			n++
+		}
+	}
+	return class, size, n
+}
+
+func awaitProc(s *stack.Stack, kind string, after *stack.Proc) *stack.Proc {
+	deadline := time.Now().Add(5 * time.Second)
+	for time.Now().Before(deadline) {
+		if p := s.Sup.Latest(kind, ""); p != nil && p != after && p.Alive() {
+			return p
+		}
+		time.Sleep(200 * time.Microsecond)
+	}
+	return nil
+}
+
+// checkCauseHandlers runs a cause document through the entry points of the real emulator (full stack, Runtime API over
+// HTTP) and compares what ends up as the error cause of the invocation's trace segment (recording tracer) with the
+// specification: through /runtime/invocation/{id}/error the document is dropped or passed on bounded exactly as
+// Sanitize!CauseOut says; an init error (reported while an invocation is waiting for the initialisation) passes no
+// cause on at all.
+func checkCauseHandlers(rnd *rand.Rand, c *Case, via string) string {
+	raw, _ := buildCause(rnd, c)
+	if len(raw) > 200*1024 || bytes.ContainsAny(raw, "\r\n") {
+		return ""
+	}
+	s, err := stack.New(stack.Options{TimeoutMs: 1500})
+	if err != nil {
+		return "driver: " + err.Error()
+	}
+	defer s.Close()
+	defer s.AbortClients()
+	s.Init()
+	p := awaitProc(s, "rt", nil)
+	if p == nil {
+		return "driver: runtime not started"
+	}
+	hdr := map[string]string{causeHeader: string(raw)}
+	want := "none"
+	if via == "invocation-error" {
+		if c.Exp.Out != "dropped" {
+			want = "bounded"
+		}
+		next := make(chan stack.CallResult, 1)
+		go func() { next <- s.RtNext(p, "rt") }()
+		inv := make(chan stack.InvokeResult, 1)
+		go func() { inv <- s.Invoke(1, []byte("x"), "", "", "") }()
+		select {
+		case <-next:
+		case <-time.After(5 * time.Second):
+			return "driver: event not delivered"
+		}
+		s.RtError(p, "rt", "current", "Function.Failed", []byte(`{"errorMessage":"boom"}`), hdr)
+		go s.RtNext(p, "rt")
+		select {
+		case <-inv:
+		case <-time.After(5 * time.Second):
+			return "driver: invocation not answered"
+		}
+	} else {
+		// the first runtime dies during init; the first invocation fails and resets; the second invocation brings the
+		// environment up itself and the new runtime reports an init error with a cause header
+		s.Sup.Exit(p, 1)
+		s.Invoke(1, []byte("x"), "", "", "")
+		inv := make(chan stack.InvokeResult, 1)
+		go func() { inv <- s.Invoke(1, []byte("y"), "", "", "") }()
+		p2 := awaitProc(s, "rt", p)
+		if p2 == nil {
+			return "driver: second runtime not started"
+		}
+		s.RtInitErrorH(p2, "rt", "Runtime.InitFailed", []byte(`{"errorMessage":"init"}`), hdr)
+		s.Sup.Exit(p2, 1)
+		select {
+		case <-inv:
+		case <-time.After(6 * time.Second):
+			return "driver: invocation not answered"
+		}
+	}
+	class, size, n := lastTraceCause(s)
+	if n == 0 {
+		return "driver: no trace segment recorded"
+	}
+	if class != want {
+		return fmt.Sprintf("cause of class %s/%v sent through %s: the trace segment gets %q (%d bytes), specification says %q",
+			c.C.JSON, c.C.Fields, via, class, size, want)
+	}
+	return ""
+}
+
 func short(s string) string {
 	if len(s) > 60 {
 		return s[:28] + "…" + s[len(s)-28:]
@@ -359,6 +463,12 @@ func Run(cases []Case, seed int64, reps int) *Report {
 			case "cause":
 				input = c.C
 				what = checkCause(rnd, c)
+				// a sample of the cases also through the handlers of the full stack (small and medium documents)
+				if what == "" && r == 0 && c.C.Size != "huge" && i%fullStackEvery == 0 {
+					via := []string{"invocation-error", "init-error"}[(i/fullStackEvery)%2]
+					what = checkCauseHandlers(rnd, c, via)
+					rep.FullStack++
+				}
 			case "release":
 				input = c.C
 				what = checkRelease(rnd, c)
